@@ -13,8 +13,10 @@
    * Models with a fuelled loop: CBOR and Monero-Base58 decoders have their fuel bounded by the input length inside
      the contributors' error lemmas (OutOfFuel unreachable); the master-key loop's termination is probabilistic, its
      statement is [in_family_or_fuel].
-   * Entry points not listed here (Bech32 / SegWit / CashAddr codecs, Cardano and Monero addresses, wallet-level
-     constructors) are covered by the differential fuzz of harness/props/C14.py only; the evidence lists them.
+   * Sections 10-13 (second wave) cover the Cardano and Monero addresses, the Khovratovich-Law / Icarus / Byron-legacy
+     key classes and the wallet-level constructors; with them every census entry point of harness/props/C14.py has a
+     theorem about its model.  Where the faithful model leaves the family the full statement is refuted by a witness
+     and the guard under which it holds is proved ([kholaw_child_key_refuted] / [_partial]; finding C14-KHOLAW-OVERFLOW).
 
    PATTERN for a new entry point: no-escape lemma in Lemmas/NoEscape<Area>.v (see the header of Lemmas/NoEscape.v),
    theorem here by [exact], entry in MODEL_MAP of harness/props/C14.py. *)
@@ -831,6 +833,18 @@ Theorem bip44_from_seed_no_escape : forall (K : Type) (master : res K),
   NoEscapeDeriv.in_family_or_fuel master = true -> NoEscapeDeriv.in_family_or_fuel (C14b.bip44_from_seed master) = true.
 Proof. exact NoEscapeWallets.bip44_from_seed_fof. Qed.
 Print Assumptions bip44_from_seed_no_escape.
+(* ... on the concrete master keys: the SLIP-0010 classes (Bip44 / Bip49 / Bip84 / Bip86 coins on secp256k1, nist256p1,
+   ed25519) and the Icarus master key (Cip1852, Bip44 CARDANO_BYRON_ICARUS) *)
+Theorem bip44_from_seed_concrete_no_escape : forall (hmac512 : list N -> list N -> list N) D pbkdf2 (G : Type) gmul gbase g_is_zero penc fuel seed,
+  (forall p s r n, length (pbkdf2 p s r n) = N.to_nat n) ->
+  NoEscapeDeriv.in_family_or_fuel (C14b.bip44_from_seed (Bip32Slip10.from_seed hmac512 D fuel seed)) = true /\
+  NoEscapeDeriv.in_family_or_fuel (C14b.bip44_from_seed (ic_from_seed pbkdf2 G gmul gbase g_is_zero penc seed)) = true.
+Proof.
+  intros h D pb G gmul gbase z penc fuel seed H.
+  split; [exact (bip44_from_seed_no_escape _ _ (bip32_from_seed_no_escape h D fuel seed))|].
+  exact (bip44_from_seed_no_escape _ _ (NoEscapeDeriv.family_or_fuel_of_family _ (NoEscapeCardano.ic_from_seed_family pb G gmul gbase z penc H seed))).
+Qed.
+Print Assumptions bip44_from_seed_concrete_no_escape.
 Example bip44_from_seed_ex : NoEscapeDeriv.in_family_or_fuel (@Err N ValueError) = true /\
   C14b.bip44_from_seed (Ok 7%N) = Ok (Bip44.mkState N 0 false 0 0 [] 7%N).
 Proof. split; reflexivity. Qed.
